@@ -77,7 +77,7 @@ ADD_TEXT = {
  'C06': " Added: Number::pretty_unit with the real fast_decompose on an arbitrary dimensionality over kg, m, s and a table of derived units (regrouping preserves the dimensionality, whatever candidate the heuristic picks), and Number::unit_to_string (its text read back denotes the dimensionality); Context::show prints the target constant as integer factor / divisor whose quotient is exactly that constant. Number::with_pretty_unit (the value shown by the non-default digit formats): shown value x shown unit = quantity. How unit-list entries are shown: numeral x the printed unit name, looked up again by the real Context::lookup, = part x unit (real to_list, prettify with the database prefix table, canonicalize) - this reports the open known finding F23.",
  'C10': " Added: `(x <s1>) -> <s2>` with an operand that carries an arbitrary unit is refused whatever the pair of scales (also s1 = s2); parse_query takes a scale token as a scale conversion only when it is the whole target (`-> degC / s`, `-> degF m` are compound targets and refused).",
  'C04': " Added: parse_query on the `-> [digits N] [base B] [target]` suffix with symbolic digits (an accepted base lies in 2..=36), to_duration on float seconds (NaN, infinite, finite), the date offset matcher with hours of 1..10 digits, attempt() on out-of-range offsets.",
- 'C07': " Added: Context::canonicalize followed by lookup preserves the value (symbolic database with long/short prefix pairs and names that split two ways); lookup(first); lookup(second) on one context equals lookup(second) on an identical fresh context for 9 name pairs with two prefix readings (history independence); static scan: no iteration over a std HashMap/HashSet in rink-core. Counterexamples are replayed on a Registry built natively from the model. Case variants of `ans` (Ans, aNs) are ordinary names.",
+ 'C07': " Added: Context::canonicalize followed by lookup preserves the value (symbolic database with long/short prefix pairs and names that split two ways); lookup(first); lookup(second) on one context equals lookup(second) on an identical fresh context for 9 name pairs with two prefix readings (history independence); static scan: no iteration over a std HashMap/HashSet in rink-core. Counterexamples are replayed on a Registry built natively from the model. Case variants of `ans` (Ans, aNs) are ordinary names. The canonicalize database also holds an alias and quantity entries (in `definitions` only, as the loader files them) whose names have a prefix or plural reading; this found F26 (`mass`).",
  'C09': " Added: the Duration reply of eval_query (automatic year/week/day/hour/minute/second breakdown) through the real arm with database constants. What is shown of a breakdown: DurationReply::to_spans lists exactly the non-zero parts (either sign) and always the seconds. Unit values of a list may be zero (then the list is refused, never divided by); the UnitList reply of eval_query (`v -> hour;minute;second`) obeys the same law; how entries are shown (see C06; open known finding F23: `0.0005 s -> s;ms` prints `500 millimeter`).",
  'C14': " Added: parse_date pattern elements (13 numeric elements, fractional seconds of 1..10 digits, offsets +hhmm / +h..h:mm) on symbolic digit strings; attempt() on the offset pattern with chrono's Parsed conversions by contract: the instant carries exactly the offset written and offsets of 24 h or more are refused; to_duration on float seconds. Date +- duration also through chrono's local-time path by contract (naive_local / from_local_datetime with the zone offset an uninterpreted function of the instant for named zones; the replay adds daylight-saving probes in America/New_York and Europe/Berlin); f64::from_str modelled for fraction digits. attempt() on `hour24:min offset` without a date: the instant has the written time of day in the written offset on the calendar day `now` falls on in that offset (calendar-day contract: day = floor((instant + offset) / 24 h); the replay sets the clock). parse_offset declines hour fields that are not two digits.",
  'C15': " Added: the parsed query handed to the wrapper is an arbitrary Query (every variant and conversion-target kind), and the post-state obligation covers use_humanize as well as the feature flag, registry and temporaries. The same one-step harness through rink_core::one_line.",
